@@ -1,4 +1,5 @@
 import ArroyProofs.AuditCmd
 import ArroyProofs.Properties.C03
 import ArroyProofs.Properties.Reachable
+import ArroyProofs.Properties.C03Bq
 #audit Arroy.C03
